@@ -1117,7 +1117,7 @@ class SysSim(Engine):
                         cell = row[fk]
                         ok = (cell == fv) if not isinstance(fv, (tuple, list)) else tuple(cell) == tuple(fv)
                         if fv is None:
-                            ok = cell is None or cell != cell
+                            ok = cell is None  # the field value itself, not pandas' stand-in for a missing number
                         if not ok:
                             bad(f"to_dfs['{k}'] row {n} field {fk} is {cell!r} instead of {fv!r}")
 
